@@ -27,7 +27,7 @@ def run(tier, replay):
         events = json.load(open(replay))["replay"]["events"]
     else:
         vp = spec_vectors(res)
-        cnt = 120 if tier == "quick" else 3000
+        cnt = 120 if tier == "quick" else 8000
         jobs = [["garbage", T, cnt, vp] for T in ((1, 2, 4) if tier == "quick" else (1, 2, 3, 4, 16))]
         jobs += [["tamper", 2, 40, 1, 0, 0]] if tier == "quick" else [["tamper", T, 60, 2, 1, 1] for T in (1, 4)]
         events = fl.collect(res, PID, jobs)
